@@ -120,50 +120,42 @@ func ruleSTLBoxAgreement(p *Prog, l *Ledger, tier string) {
 		l.Add(Ob{Rule: rule, Key: key, Status: Info, Why: "`started` does not control any branch: text is kept regardless of boxing"})
 		return
 	}
-	isRowByte := func(v ssa.Value) bool {
-		v = stripAllConv(v)
-		if u, ok := v.(*ssa.UnOp); ok {
-			_, isIdx := u.X.(*ssa.IndexAddr)
-			return isIdx
-		}
-		_, isExtract := v.(*ssa.Extract)
-		return isExtract
+	// which codes make `started` true: partial evaluation of the decoder with the row byte fixed to
+	// each control code (a switch arm, `started = v == 0xb`, a table: all evaluate the same way)
+	var startCodes []int64
+	rowByte := rowByteOf(rd)
+	if rowByte == nil {
+		l.Undecide(rule, "parseTeletextRow", key, "", "the current byte of the row is not a single load of row[i]")
+		return
 	}
-	arms := switchConstArms(rd, isRowByte)
-	// which arm blocks feed `true` into a phi of started?
-	trueFrom := map[*ssa.BasicBlock]bool{}
-	var walk func(ph *ssa.Phi, seen map[*ssa.Phi]bool)
-	walk = func(ph *ssa.Phi, seen map[*ssa.Phi]bool) {
-		if seen[ph] {
+	for c := int64(0); c < 0x20; c++ {
+		arr, _, ok := pevalPhi(rowByte, map[ssa.Value]pv{rowByte: {i: c}}, func(ph *ssa.Phi) bool { return ph.Comment == "started" })
+		if !ok {
+			l.Undecide(rule, "parseTeletextRow", key, "", "the decoder is too large to evaluate per code")
 			return
 		}
-		seen[ph] = true
-		for i, e := range ph.Edges {
-			if c, ok := e.(*ssa.Const); ok && c.Value != nil && c.Value.ExactString() == "true" {
-				trueFrom[ph.Block().Preds[i]] = true
+		nTrue, nOther := 0, 0
+		for _, a := range arr {
+			if v, ok := pevalValue(a.edge, a.env, 0); ok && v.isBool {
+				if v.b {
+					nTrue++
+				} else {
+					nOther++
+				}
+				continue
 			}
-			if q, ok := e.(*ssa.Phi); ok {
-				walk(q, seen)
+			if ph, ok := a.edge.(*ssa.Phi); ok && ph.Comment == "started" {
+				nOther++ // unchanged
+				continue
 			}
+			l.Undecide(rule, "parseTeletextRow", key, p.Pos(a.edge.Pos()), fmt.Sprintf("what code %#x does to `started` cannot be evaluated", c))
+			return
 		}
-	}
-	walk(started, map[*ssa.Phi]bool{})
-	var startCodes []int64
-	for cs, tgt := range arms {
-		// the arm's target block (or a straight-line successor) is a predecessor feeding true
-		b := tgt
-		for k := 0; k < 3 && b != nil; k++ {
-			if trueFrom[b] {
-				var c int64
-				fmt.Sscan(cs, &c)
-				startCodes = append(startCodes, c)
-				break
-			}
-			if len(b.Succs) == 1 {
-				b = b.Succs[0]
-			} else {
-				b = nil
-			}
+		if nTrue > 0 && nOther == 0 {
+			startCodes = append(startCodes, c)
+		} else if nTrue > 0 {
+			l.Undecide(rule, "parseTeletextRow", key, "", fmt.Sprintf("code %#x sets `started` on some paths only", c))
+			return
 		}
 	}
 	sort.Slice(startCodes, func(i, j int) bool { return startCodes[i] < startCodes[j] })
